@@ -296,6 +296,184 @@ fn check_run_x(case: &Case, res: &RunRes, what: &str, partition: bool) -> Result
     Ok(())
 }
 
+/// RAII: soft RLIMIT_FSIZE lowered to `limit` bytes, restored on drop
+struct FsizeLimit(libc::rlimit);
+impl FsizeLimit {
+    fn set(limit: u64) -> Option<FsizeLimit> {
+        let mut old = libc::rlimit { rlim_cur: 0, rlim_max: 0 };
+        unsafe {
+            if libc::getrlimit(libc::RLIMIT_FSIZE, &mut old) != 0 {
+                return None;
+            }
+            let new = libc::rlimit { rlim_cur: limit, rlim_max: old.rlim_max };
+            if libc::setrlimit(libc::RLIMIT_FSIZE, &new) != 0 {
+                return None;
+            }
+        }
+        Some(FsizeLimit(old))
+    }
+}
+impl Drop for FsizeLimit {
+    fn drop(&mut self) {
+        unsafe {
+            libc::setrlimit(libc::RLIMIT_FSIZE, &self.0);
+        }
+    }
+}
+
+/// Real write failures (not injected at a hook point, so they also hit the flush of a buffered
+/// writer): the log file is first filled beyond 4096 bytes, then for a window of operations the
+/// process's file size limit is 4096 bytes - every write(2) that extends the log file fails with
+/// EFBIG, while new (small) files and the error channel file can still be written.
+/// Oracle: lines intact, in order, at most once; a record may be missing only if it was logged
+/// between the last flush before the window and the end of the window (or was removed by the
+/// cleanup limits), and then the error channel must have reported something; logging and rotation
+/// work again afterwards.
+fn real_write_failure(case: &Case, sc: &Scratch) -> Result<(bool, String), (String, String)> {
+    let mut cfg = case.cfg.clone();
+    let seed = crate::util::mix(case.burst_seed, 0xEFB1);
+    cfg.mode = match seed % 4 {
+        0 => Mode::Direct,
+        1 => Mode::BufDontFlush(64),
+        2 => Mode::BufDontFlush(512),
+        _ => Mode::BufDontFlush(8192),
+    };
+    cfg.via_logger = true;
+    cfg.utc = false;
+    cfg.symlink = false;
+    if let Some(r) = cfg.rot.as_mut() {
+        // the first file is closed by the criterion only after the window has begun
+        r.crit = match r.crit {
+            Crit::Age(a) => Crit::AgeOrSize(a, 4400 + (seed >> 8) % 1200),
+            Crit::Size(_) | Crit::AgeOrSize(_, _) => Crit::Size(4400 + (seed >> 8) % 1200),
+        };
+        r.crit = crate::fscn::fix_crit(r.crit, &r.nam);
+    }
+    let cfg = &cfg;
+    let dir = sc.sub("efbig");
+    let err = sc.sub("efbig.err");
+    let hh = h();
+    hh.reset_points();
+    hh.reset_births();
+    hh.set_time(Some(case.t0.to_ns()));
+    hh.set_mode(MODE_OFF);
+    let sess = Sess::start(cfg, &dir, false, Some(&err), None).map_err(|e| ("start-failed".to_string(), e))?;
+    let mut lens: BTreeMap<u32, usize> = BTreeMap::new();
+    let mut q = 0u32;
+    let mut write = |len: usize, q: &mut u32, lens: &mut BTreeMap<u32, usize>| {
+        let p = payload(0, *q, len.max(8));
+        lens.insert(*q, len.max(8));
+        sess.write(&p);
+        *q += 1;
+    };
+    // fill beyond the limit, everything on disk
+    for _ in 0..21 {
+        write(199, &mut q, &mut lens);
+    }
+    sess.flush();
+    let n_ops = case.ops.len();
+    let start = if n_ops == 0 { 0 } else { ((seed >> 20) % n_ops as u64) as usize };
+    let len = 1 + ((seed >> 32) % 4) as usize;
+    let mut last_flush_q = q; // first record not yet known to be on disk
+    let mut window_first = None;
+    let mut window_last = None;
+    let mut guard: Option<FsizeLimit> = None;
+    for (i, op) in case.ops.iter().enumerate() {
+        if i == start {
+            guard = FsizeLimit::set(4096);
+            if guard.is_none() {
+                sess.shutdown();
+                return Ok((false, "setrlimit not permitted".into()));
+            }
+            window_first = Some(last_flush_q);
+        }
+        match op {
+            Op::Write(l) | Op::FailWrite(l) => write((*l).min(300), &mut q, &mut lens),
+            Op::Rotate => {
+                let _ = sess.rotate();
+            }
+            Op::Flush => {
+                sess.flush();
+                if guard.is_none() {
+                    last_flush_q = q;
+                }
+            }
+            Op::Advance(ms) => hh.advance(*ms * MS),
+        }
+        if guard.is_some() && i + 1 >= start + len {
+            guard = None;
+            window_last = Some(q);
+        }
+    }
+    if guard.is_some() {
+        guard = None;
+        window_last = Some(q);
+    }
+    let _ = guard;
+    // tail: everything works again
+    let tail_a = q;
+    write(10, &mut q, &mut lens);
+    let mut tail_rotate_ok = true;
+    if cfg.rot.is_some() && sess.rotate().is_err() {
+        tail_rotate_ok = false;
+    }
+    let tail_b = q;
+    write(11, &mut q, &mut lens);
+    sess.shutdown();
+    let snap = snapshot(&dir);
+    let stray: Vec<String> = snap.iter().filter(|e| classify(cfg, &e.name).is_none()).map(|e| e.name.clone()).collect();
+    if !stray.is_empty() {
+        return Err(("stray-file".into(), format!("entries outside the naming pattern: {stray:?}")));
+    }
+    let plain: BTreeSet<String> = snap.iter().map(|e| e.name.clone()).collect();
+    let snap2: Vec<_> = snap.into_iter().filter(|e| !(e.name.ends_with(".gz") && plain.contains(e.name.trim_end_matches(".gz")))).collect();
+    let fam = family(cfg, &snap2).map_err(|e| ("family-illformed".to_string(), e))?;
+    let le = cfg.line_ending();
+    let mut found: Vec<u32> = Vec::new();
+    for f in &fam {
+        let mut rest: &[u8] = &f.content;
+        while !rest.is_empty() {
+            let Some(pos) = (0..rest.len()).find(|i| rest[*i..].starts_with(le)) else {
+                return Err(("torn-line".into(), format!("file {} ends with an unterminated line {:?}", f.name, lossy(&rest[..rest.len().min(80)]))));
+            };
+            let line = String::from_utf8_lossy(&rest[..pos]).to_string();
+            rest = &rest[pos + le.len()..];
+            let qn: Option<u32> = line.split(':').nth(1).and_then(|x| x.parse().ok());
+            match qn {
+                Some(qn) if lens.get(&qn).is_some_and(|l| payload(0, qn, *l) == line) => found.push(qn),
+                _ => return Err(("torn-line".into(), format!("file {} holds a line that is no intact record: {:?}", f.name, &line[..line.len().min(80)]))),
+            }
+        }
+    }
+    for w in found.windows(2) {
+        if w[1] <= w[0] {
+            return Err(("records-reordered-or-duplicated".into(), format!("record {} follows record {} in the stream", w[1], w[0])));
+        }
+    }
+    let cleaned = cfg.rot.as_ref().is_some_and(|r| r.cln != Cln::Never);
+    let first_found = found.first().copied().unwrap_or(q);
+    let reported = std::fs::read_to_string(&err).map(|e| !crate::util::filter_errchan(&e).trim().is_empty()).unwrap_or(false);
+    let (wf, wl) = (window_first.unwrap_or(q), window_last.unwrap_or(q));
+    let what = format!("{:?}, file size limit 4096 active during operations {start}..{} (records {wf}..{wl} can be affected); surviving records {found:?}", cfg.mode, start + len);
+    let mut lost_any = false;
+    for r in 0..q {
+        if found.contains(&r) || (cleaned && r < first_found) {
+            continue;
+        }
+        lost_any = true;
+        if r < wf || r >= wl {
+            return Err(("real-write-failure:record-lost-outside-the-failure-window".into(), format!("record {r} is missing; {what}")));
+        }
+    }
+    if lost_any && !reported {
+        return Err(("real-write-failure:loss-not-reported".into(), format!("records are missing and the error channel is empty; {what}")));
+    }
+    if !found.contains(&tail_b) || (cfg.rot.is_some() && !tail_rotate_ok) {
+        return Err(("real-write-failure:no-recovery".into(), format!("after the limit was lifted: tail records {tail_a},{tail_b}, rotation ok = {tail_rotate_ok}; {what}")));
+    }
+    Ok((lost_any, format!("{:?}", cfg.mode)))
+}
+
 impl Property for P {
     type Case = Case;
     const ID: &'static str = "C19";
@@ -321,6 +499,13 @@ impl Property for P {
     }
     fn chunk(_t: Tier) -> u64 {
         10
+    }
+    fn worker_init() {
+        // the real-write-failure scenario lowers RLIMIT_FSIZE for a while: writes beyond the
+        // limit must fail with EFBIG instead of killing the process
+        unsafe {
+            libc::signal(libc::SIGXFSZ, libc::SIG_IGN);
+        }
     }
     fn strategy(_tier: Tier) -> BoxedStrategy<Case> {
         let modes = prop_oneof![3 => Just(Mode::Direct), 1 => Just(Mode::SupportCapture)].boxed();
@@ -455,6 +640,19 @@ fn run_inner(case: &Case) -> Outcome {
                 }
                 let _ = std::fs::remove_dir_all(sc.sub(&format!("r{ri}")));
                 out.class("fault:open+delayed-background-cleanup");
+            }
+        }
+        if out.fail.is_none() {
+            n += 1;
+            match real_write_failure(case, &sc) {
+                Ok((lost, mode)) => {
+                    out.class("real-write-failure(EFBIG)");
+                    if lost {
+                        out.class("real-write-failure:records-lost-and-reported");
+                    }
+                    let _ = mode;
+                }
+                Err((sig, msg)) => out.set_fail(sig, msg),
             }
         }
         out.weight = n.max(1);
